@@ -45,6 +45,10 @@ package interp
 //@   opt opaque-calls = *
 //@   opt opaque-havoc = none
 //@   opt ignore-contracts = newFrame
+//@   opt call-guard:Getenv = strings.HasPrefix(arg(0), "YAEGI_")
+//@   ensures streams-are-the-ones-given-in-the-options: r.stdin == ite(options.Stdin == nil, os.Stdin, options.Stdin) && r.stdout == ite(options.Stdout == nil, os.Stdout, options.Stdout) && r.stderr == ite(options.Stderr == nil, os.Stderr, options.Stderr)
+//@   ensures arguments-are-the-ones-given-in-the-options: options.Args != nil ==> r.args == options.Args
+//@   ensures unrestricted-only-on-request: r.unrestricted == options.Unrestricted
 //@   loop 1 index k
 //@   invariant last-entry-stored: k > 0 ==> has(i.env, envKey(options.Env[k-1])) && i.env[envKey(options.Env[k-1])] == envVal(options.Env[k-1])
 
@@ -61,3 +65,43 @@ package interp
 //@   opt safety = off
 //@   loop 1
 //@   step entry-of-the-virtual-environment-appended: has(interp.env, k) && v == interp.env[k] && len(a) == old(len(a)) + 1 && a[len(a)-1] == k + "=" + v
+
+// The print builtins write to the interpreter's standard output and to nothing else: the generator
+// captures n.interp.stdout, and every Fprint* of the run-time closure has that writer as destination.
+//@ func _print(n)
+//@   props C13
+//@   opt safety = off
+//@   opt loops = havoc
+//@   opt opaque-calls = *
+//@   opt opaque-havoc = none
+//@   requires [assume] n != nil && n.interp != nil
+//@   ensures [local:out] writes-to-the-stream-of-the-options: out == n.interp.stdout
+//@ lit _print calls:Fprintf (args) (res)
+//@   props C13
+//@   opt safety = off
+//@   opt loops = havoc
+//@   opt opaque-calls = *
+//@   opt opaque-havoc = none
+//@   opt call-guard:Fprintf = arg(0) == out
+//@   opt call-guard:Fprintln = arg(0) == out
+//@   opt call-guard:Fprint = arg(0) == out
+//@   ensures nothing-else: true
+
+//@ func _println(n)
+//@   props C13
+//@   opt safety = off
+//@   opt loops = havoc
+//@   opt opaque-calls = *
+//@   opt opaque-havoc = none
+//@   requires [assume] n != nil && n.interp != nil
+//@   ensures [local:out] writes-to-the-stream-of-the-options: out == n.interp.stdout
+//@ lit _println calls:Fprintf (args) (res)
+//@   props C13
+//@   opt safety = off
+//@   opt loops = havoc
+//@   opt opaque-calls = *
+//@   opt opaque-havoc = none
+//@   opt call-guard:Fprintf = arg(0) == out
+//@   opt call-guard:Fprintln = arg(0) == out
+//@   opt call-guard:Fprint = arg(0) == out
+//@   ensures nothing-else: true
